@@ -105,8 +105,13 @@ def main():
     if mode == 'tables':
         keys, srcs = [], []
         for d in U:
-            vf = forms.build(d)
-            keys.append(vf.hash())
+            try:
+                vf = forms.build(d)
+                keys.append(vf.hash())
+            except Exception:
+                keys.append(None)       # rejected by the library at construction
+                srcs.append([None, None])
+                continue
             srcs.append([src_of(d, 0), src_of(d, 1)])
         # freshness of the shipped assemblers and the generic infrastructure
         shipped_text = open(os.path.join(os.path.dirname(pyiga.__file__), 'assemblers.pyx')).read()
@@ -140,7 +145,7 @@ def main():
         fresh['preamble'] = 'identical' if shipped_text.startswith(backend.preamble()) else 'different'
         # module names via the real compile_cython_module (stubbed build)
         names = {}
-        if have_names:
+        if have_names and not req.get('skip_names'):
             for d in U:
                 for s in (raw_src_of(d, 0), raw_src_of(d, 1)):
                     if s is not None and s not in names:
